@@ -92,9 +92,14 @@ theorem nmt_sets_disjoint :
 
 /-- A conditional step runs only on a segment that begins the text (start condition) or ends it (end
     condition); otherwise the text is unchanged. -/
+/- Statement as first written (did not elaborate: Lean finds no `Decidable` instance for a
+   `Prop`-valued `match`, so the `if` was ill-formed; the condition is now the same `match` with
+   Boolean branches, `decide (pos.start = 0)` / `pos.toEnd`; meaning unchanged):
+     if (match cond with | .startOfText => pos.start = 0 | .endOfText => pos.toEnd = true)
+     then inner.normalize ext pos t else some (.ok t) -/
 theorem conditional_iff (ext : NormExt) (cond : NormCondition) (inner : Normalization) (pos : Position) (t : Bytes) :
     (Normalization.conditional cond inner).normalize ext pos t =
-      if (match cond with | .startOfText => pos.start = 0 | .endOfText => pos.toEnd = true)
+      if (match cond with | .startOfText => decide (pos.start = 0) | .endOfText => pos.toEnd) = true
       then inner.normalize ext pos t else some (.ok t) :=
   Kitoken.Proofs.Normalize.conditional_iff ext cond inner pos t
 
